@@ -180,6 +180,9 @@ func oracleC05() *Result {
 	for _, c := range regressionInputs("C05") {
 		add(c, "regression")
 	}
+	for _, e := range chainSources {
+		add([]byte(e), "chains")
+	}
 	for _, e := range edgeSources {
 		add([]byte(e), "edge")
 	}
